@@ -83,6 +83,15 @@ pub fn gen_history<S: Sut>(seed: u64, cfg: Cfg, sweep: Option<Sweep>) -> Outcome
     let mut script: Vec<Act> = vec![];
     let policy = if cfg.policy == 255 { rng.below(8) as u8 } else { cfg.policy };
     let n = cfg.nrep;
+    // actor identities: usually replica i edits as actor i; every third history uses spread-out identities whose
+    // order differs from the replica order (e.g. 250, 3, 7) so that nothing depends on small, ordered actor ids
+    let actor_ids: Vec<u8> = if rng.chance(1, 3) && !cfg.misuse {
+        let base = rng.below(256) as u8;
+        let stride = [3u8, 101, 255, 17][rng.below(4)];
+        (0..n).map(|i| base.wrapping_add(stride.wrapping_mul(i as u8))).collect()
+    } else {
+        (0..n).map(|i| i as u8).collect()
+    };
     macro_rules! go {
         ($a:expr) => {
             let act__ = $a;
@@ -113,7 +122,7 @@ pub fn gen_history<S: Sut>(seed: u64, cfg: Cfg, sweep: Option<Sweep>) -> Outcome
             go!(Act::Shadow { r });
         }
         if choice < 4 || w.ops.is_empty() {
-            let actor = if cfg.misuse && rng.chance(1, 3) { 7 } else { r as u8 };
+            let actor = if cfg.misuse && rng.chance(1, 3) { 7 } else { actor_ids[r] };
             let cmd = S::random_cmd(&mut rng, &w.sh);
             go!(Act::Gen { r, actor, cmd, old: rng.below(12) });
         } else if choice < 8 || !cfg.merges || !S::HAS_MERGE {
